@@ -459,6 +459,9 @@ def phs_pe(nswitch):
 
 
 def run(chk):
+    from .. import runner as _runner
+
+    _runner.CASE_TIMEOUT_S = min(_runner.CASE_TIMEOUT_S, 30)  # a pass that does not terminate on an input is a rejected input
     quick = chk.tier == "quick"
     only = getattr(chk, "only", None)
     rnd = random.Random(chk.seed)
